@@ -165,6 +165,9 @@ pub enum Case {
     /// the same message in a well-formed but non-canonical layout: tails in another order, a gap of zero words
     /// before the tails, equal dynamic fields sharing one tail - in the envelope, in the nested message, or both
     Layout { hub: Hub, outer: crate::oracle::Layout, inner: crate::oracle::Layout, bare_inner: bool },
+    /// a complete, canonical hub message wrapped canonically once or twice more (`wraps` bit k: wrapper k is SendToHub,
+    /// else ReceiveFromHub; `twice`): every layer is well-formed, but a wrapper may only hold a transfer or a deployment
+    Rewrapped { hub: Hub, wraps: u8, twice: bool },
 }
 
 fn text() -> impl Strategy<Value = Text> {
@@ -399,6 +402,7 @@ impl Property for C10 {
             3 => (hub(), mutation(), prop_oneof![2 => Just(Mutation::None), 1 => mutation()], prop_oneof![3 => Just(None), 1 => (0u8..70, any::<u64>()).prop_map(Some)])
                 .prop_map(|(hub, m1, m2, short)| Case::Nested { hub, m1, m2, short }),
             3 => (hub(), layout(), layout(), prop_oneof![3 => Just(false), 1 => Just(true)]).prop_map(|(hub, outer, inner, bare_inner)| Case::Layout { hub, outer, inner, bare_inner }),
+            1 => (hub(), 0u8..4, any::<bool>()).prop_map(|(hub, wraps, twice)| Case::Rewrapped { hub, wraps, twice }),
         ]
         .boxed()
     }
@@ -495,6 +499,15 @@ impl Property for C10 {
                 } else {
                     AHub::Receive { chain: hub.chain.bytes(), inner }.encode()
                 }
+            }
+            Case::Rewrapped { hub, wraps, twice } => {
+                let mut b = hub_encode(hub);
+                for k in 0..(1 + *twice as u8) {
+                    b = if wraps >> k & 1 == 1 { AHub::Send { chain: hub.chain.bytes(), inner: b }.encode() } else { AHub::Receive { chain: hub.chain.bytes(), inner: b }.encode() };
+                }
+                cx.nontrivial();
+                cx.label("hub_message_wrapped_again");
+                b
             }
             Case::Layout { hub, outer, inner, bare_inner } => {
                 let inner_bytes = inner_to_amsg(&hub.inner).encode_layout(*inner);
